@@ -188,7 +188,7 @@ ADDENDA = {
     "C07": "Footprints with the pole off-centre along the long axis of non-square images; one filter object used with both coordinate systems in turn. Long thin strips bending around a pole just outside the image; the Builder entry point end to end. A cut-out with an equal WCS filtered earlier in the process; coarse maps cut in thirds and fifths. FITS pyramids in the filtered-versus-unfiltered end-to-end comparison. Images whose values are exactly zero, or of both signs, end to end. The per-chunk (filter, sampler) pairs of a chunked map all obtained first and then sampled in turn, or last chunk first.",
     "C08": "Re-tiling over a complete earlier tiling with an image undefined over a whole tile; parent tiling immutable under compute_for_subimage; blocks of infinities; full I32 range. Whole images and sub-tilings through Builder.prepare/execute_study_tiling; one StudyTiling object re-used for a second image of a wider mode. The thumbnail-first order of the tile-study command on PIL-backed images, including sizes of exactly the thumbnail's aspect ratio. Tilings and sub-tilings sent through pickle / deepcopy; PIL-backed images whose parity was flipped before tiling. Image objects labelled with another default format than the pyramid they are tiled into (other row order included): the pyramid's format decides what is written.",
     "C09": "DATAMIN/DATAMAX cards of the deepest tiles compared between the two routes; inputs read from FITS files with blank borders marked by --blankval values 0.0, -999 and 0; mixed-parity collections with CD-matrix headers. Inputs contained in other inputs (every order); the serial route without a batch environment on a mosaic whose outer tile columns receive only undefined pixels. The multi-TAN stage fed from FITS files with a blank value under the scheduler; --blankval given as text. Three inputs over four tile columns where one tile receives only the undefined border of one input and data from two others; one multi-extension file listed once per extension. A decomposition with an input that has no defined pixel; inputs written to FITS files and read through toasty's SimpleFitsCollection. Inputs with an undefined band on one side only (top, bottom, left or right), a little thicker than the share of the mosaic held by the outermost tile row / column.",
-    "C10": "Updaters contributing no defined pixel, and the non-clobbering TOAST sampler as an updater (whole-tile and partial coverage); file removals are part of the explored state. Tile positions whose digits run together to one string, one updater having touched the partner tile first; the parallel multi-TAN stage itself (lock markers must not be removed by another process). time.sleep, os.open, os.replace and os.rename are scheduling points and the scratch directory listing is part of the state, so a home-made marker-file lock is explored like the library's. filelock.FileLock virtualised as an OS-level lock and multiprocessing.parent_process per virtual process (a lock class chosen by process role is explorable); the top-level process updating alongside its children; the lock file named for a tile compared between independently started interpreters with different string-hash salts. filelock's removal of a non-empty ('unparsable') lock marker by a waiter as a timeout-class action; lock identity compared across interpreters with their own TMPDIR and a symlinked spelling of the pyramid path. Updates given up half-way (the body of the `with` block raises) next to successful ones, on tiles that do not exist yet: they contribute nothing and take nothing away. An update whose write-back fails before anything is written (disk full), likewise.",
+    "C10": "Updaters contributing no defined pixel, and the non-clobbering TOAST sampler as an updater (whole-tile and partial coverage); file removals are part of the explored state. Tile positions whose digits run together to one string, one updater having touched the partner tile first; the parallel multi-TAN stage itself (lock markers must not be removed by another process). time.sleep, os.open, os.replace and os.rename are scheduling points and the scratch directory listing is part of the state, so a home-made marker-file lock is explored like the library's. filelock.FileLock virtualised as an OS-level lock and multiprocessing.parent_process per virtual process (a lock class chosen by process role is explorable); the top-level process updating alongside its children; the lock file named for a tile compared between independently started interpreters with different string-hash salts. filelock's removal of a non-empty ('unparsable') lock marker by a waiter as a timeout-class action; lock identity compared across interpreters with their own TMPDIR and a symlinked spelling of the pyramid path. Updates given up half-way (the body of the `with` block raises) next to successful ones, on tiles that do not exist yet: they contribute nothing and take nothing away. An update whose write-back fails before anything is written (disk full), likewise. The read of the existing tile under the lock failing once with a transient error (ESTALE) and the updater retrying: the failed attempt leaves the tile as it was.",
     "C11": "Second sampler kept alive between requests; consecutive requests of one shape with equal end points; read-only request arrays, which must come back unchanged. Axis lengths at the limits of the narrow integer types (127-129, 255-257; thorough 32767-32769, 65535, 65536); 1-D and large requests (300x300, 70001 points), every element judged. Maps in big-endian byte order and several widths, three samplers built from one map array answering in turn (the map must stay unchanged), requests in Fortran / transposed / mixed memory layout. Results of earlier requests kept and compared after later requests; whole-radian coordinates as int64 / int32 / float32 / read-only arrays against the layout formula. A result of the wrong shape is a violation in every request family (small colour maps of 1-4 rows are part of the map shapes).",
     "C12": "A lookup in the other coordinate system immediately before each judged one; deep descents to depth 14/20/23/24 with a tolerance of 1e-3 tile widths plus the double-precision resolution of a tile side; pixel clause at 2-3 turns. 384 points 1-3 degrees from the poles near the quadrant meridians for the pixel clause. Sub-ulp negative, denormal and signed-zero longitudes; points within 1e-6 to 1e-9 rad of the poles (tile clause). Coordinates given as Python / numpy integers, 0-d arrays and 32-bit floats; queries that are bit for bit the centre of a pixel.",
     "C13": "One-instance histories (count, restrict, count again; a refused subpyramid() then further use); geometry of the tiles handed to visit_leaves, both coordinate systems. Deep pyramids (depth 8-12) under apexes 0-2 levels above the leaves; a pyramid traversed after another one was made for the other coordinate system. A traversal whose callback asks the same pyramid for its counts; toast.count_tiles_matching_filter; filters not monotone along the apex path. Falsy callable filters; a restricted pyramid one level deeper (depth attribute changed). One pyramid object counted, then walked and leaf-visited by two worker processes in both orders (stateful exploration; deviation bound 3 in the quick tier); children lists mutated by the caller between two questions.",
